@@ -267,8 +267,12 @@ example : (callSeq true [] [[.nonceErr, .accept], [.accept, .accept]]).map (·.c
 
 /-! ### configuration across setters and reconnects -/
 
-/-- every gas price ever set fits the `uint64` field the adaptor keeps it in -/
-def SmallPrices (ops : List Op) : Prop := ∀ v, Op.setGasPrice v ∈ ops → v < 2 ^ 64
+/-- every gas price ever set fits `int64`: the adaptor keeps it in a `uint64` field, but `Connect` rebuilds the sessions
+with `big.NewInt(int64(e.gasPrice))` — a price in [2^63, 2^64) comes back NEGATIVE after a reconnect and every later
+call fails locally ("rlp: cannot encode negative *big.Int"; review E #6, shown on the real adaptor).  `Adaptor.reconnect`
+models the conversion as the identity, which is what the code does exactly on this domain; prices ≥ 2^63 (≈ 9.2·10^9 gwei)
+are outside the theorems — declared in meta/C19.json. -/
+def SmallPrices (ops : List Op) : Prop := ∀ v, Op.setGasPrice v ∈ ops → v < 2 ^ 63
 
 /-- **reconnect preserves the configuration**: when the session copy and the fields agree (they do after every
 history, `config_coherent`), `DisconnectAll` + `Connect` leaves gas limit, gas price and chain id of the
@@ -277,7 +281,7 @@ theorem reconnect_preserves_config (a : Adaptor) (h : a.session = a.field) :
     a.reconnect.session = a.session ∧ a.reconnect.field = a.field := by
   simp [Adaptor.reconnect, h]
 
-/-- after ANY history of setters, reconnects and calls (prices within `uint64`) the sessions carry exactly the
+/-- after ANY history of setters, reconnects and calls (prices within `int64`) the sessions carry exactly the
 configuration the operator has set, and the fields `Connect` would rebuild them from agree with it -/
 theorem config_coherent (fixed : Bool) : ∀ (ops : List Op) (a : Adaptor),
     a.session = a.field → SmallPrices ops →
@@ -291,7 +295,7 @@ theorem config_coherent (fixed : Bool) : ∀ (ops : List Op) (a : Adaptor),
     have hs' : SmallPrices ops := fun v hv => hs v (List.mem_cons_of_mem _ hv)
     cases op with
     | setGasPrice v =>
-      have hv : v < 2 ^ 64 := hs v (by simp)
+      have hv : v < 2 ^ 64 := Nat.lt_trans (hs v (by simp)) (by decide)
       have hm : v % 2 ^ 64 = v := Nat.mod_eq_of_lt hv
       have hc : (a.setGasPrice v).session = (a.setGasPrice v).field := by
         simp only [Adaptor.setGasPrice, u64, hm, h]
@@ -618,6 +622,69 @@ theorem handleCR_args_match_model :
     handleCRArgs = ["sec, err := rand.Int(rand.Reader, randSeed)", "h := sha3.NewLegacyKeccak256()",
       "h.Write(math.U256Bytes(sec))", "b := h.Sum(nil)", "hash := byte32(b)", "cid := cr.Cid",
       "if err := d.chain.Commit(cid, *hash); err != nil", "if err := d.chain.Reveal(cid, sec); err != nil"] := by
+  decide
+
+/-- **regenerated: the glue from a finished key generation to `RegisterGroupPubKey`** (review E #4, T3b).  `genGroup`
+(share/dkg/pedersen/pdkg_pipes.go): the public polynomial is built from the commitments of the node's OWN share on the
+standard base, the group key is its constant commitment `pubPoly.Commit()` UNCHANGED (not negated, not another
+coefficient), its four coordinates come from `decodePubKey` (`marshal_roundtrip_pubkey`, `pk` cases), the group id is
+the session id read as a hexadecimal number, and the value handed on is `[id, c0, c1, c2, c3]` in exactly this order
+(`copy(dataReturn[1:], pubKeyCoor[:])`).  `registerGroup` (dosnode/dos_stages.go, complete skeleton) passes that value
+UNCHANGED to `chain.RegisterGroupPubKey`, whose call data `registerGroupPubKey_data_of_marshalled_key` (C19Abi) gives
+byte by byte.  `reportQueryResult`: `UpdateRandomness` iff the query type is `TrafficSystemRandom`, else `DataReturn`,
+with the signature unchanged. -/
+theorem group_key_glue_matches_model :
+    genGroupKeyGlue =
+     ["out = make(chan [5]*big.Int)",
+      "secShare, err := dkg.DistKeyShare()",
+      "group.secShare = secShare",
+      "group.pubPoly = share.NewPubPoly(suite, suite.Point().Base(), group.secShare.Commitments())",
+      "pubKey := group.pubPoly.Commit()",
+      "pubKeyCoor, err := decodePubKey(pubKey)",
+      "groupId, ok := new(big.Int).SetString(sessionID, 16)",
+      "dataReturn := [5]*big.Int{groupId}",
+      "copy(dataReturn[1:], pubKeyCoor[:])",
+      "case out <- dataReturn"] ∧
+    registerGroupBody =
+     ["0 errc = make(chan error)",
+      "0 go func",
+      "0 return",
+      "0 *ast.DeferStmt",
+      "0 var err error",
+      "0 select",
+      "1 case idPubkey, ok := <-IdWithPubKeys",
+      "2 if ok",
+      "3 err = chain.RegisterGroupPubKey(idPubkey)",
+      "2 else",
+      "3 err = errors.New(\"no publickey\")",
+      "1 case <-ctx.Done()",
+      "2 err = ctx.Err()",
+      "2 return",
+      "0 if err != nil",
+      "1 select",
+      "2 case errc <- err",
+      "2 case <-ctx.Done()"] ∧
+    reportQueryResultBody =
+     ["0 errc = make(chan error)",
+      "0 go func",
+      "0 return",
+      "0 *ast.DeferStmt",
+      "0 var err error",
+      "0 select",
+      "1 case signature, ok := <-signC",
+      "2 if ok",
+      "3 if queryType == onchain.TrafficSystemRandom",
+      "4 err = chain.UpdateRandomness(signature)",
+      "3 else",
+      "4 err = chain.DataReturn(signature)",
+      "2 else",
+      "3 err = errors.New(\"no signature\")",
+      "1 case <-ctx.Done()",
+      "2 return",
+      "0 if err != nil",
+      "1 select",
+      "2 case errc <- err",
+      "2 case <-ctx.Done()"] := by
   decide
 
 end Dos.Props.C19
